@@ -9,6 +9,7 @@ import (
 	kvredis "github.com/acquirecloud/golibs/kvs/redis"
 	"github.com/alicebob/miniredis/v2"
 	goredis "github.com/go-redis/redis/v8"
+	"verifharness/internal/vstat"
 )
 
 var (
@@ -16,7 +17,11 @@ var (
 	mini     *miniredis.Miniredis
 	redisSt  kvs.Storage
 	miniErr  error
+	redisDB  int
 )
+
+// RedisDB tells which logical database of the process-wide server the process-wide client uses.
+func RedisDB() int { Redis(); return redisDB }
 
 // Redis returns the process-wide miniredis server and a kvs/redis client connected to it.
 func Redis() (*miniredis.Miniredis, kvs.Storage, error) {
@@ -25,7 +30,12 @@ func Redis() (*miniredis.Miniredis, kvs.Storage, error) {
 		if miniErr != nil {
 			return
 		}
-		redisSt = kvredis.New(&goredis.Options{Addr: mini.Addr(), PoolSize: 64})
+		// the logical database of the server is part of a client's configuration: odd shards use a non-default one
+		redisDB = 0
+		if shard, _ := vstat.Shard(); shard%2 == 1 {
+			redisDB = []int{3, 15, 1}[(shard/2)%3]
+		}
+		redisSt = kvredis.New(&goredis.Options{Addr: mini.Addr(), PoolSize: 64, DB: redisDB})
 	})
 	return mini, redisSt, miniErr
 }
